@@ -8,7 +8,7 @@ codec/streaming.py; everything else forwards.  Two scopes: logging off
 import ast
 
 from sa.model import AnalysisError, ClassInfo, FuncInfo, norm, walk_own, ancestors
-from sa.util import is_log_test, call_name, stmts_of
+from sa.util import raises_in, const_int, is_log_test, call_name, stmts_of
 
 DEC_MODULES = ('pyasn1.codec.ber.decoder', 'pyasn1.codec.cer.decoder', 'pyasn1.codec.der.decoder',
                'pyasn1.codec.streaming')
@@ -67,6 +67,19 @@ def callee_set(ctx, f, call, _depth=0):
         if isinstance(r, ClassInfo):
             it = r.method('__iter__')
             return {it} if it else set()
+        # a local that only ever holds bound methods / functions (`fun = a.m if c else a.n`): union of what it may hold
+        if fn.id not in params and _depth < 3:
+            vals = [n.value for n in walk_own(f.node) if isinstance(n, ast.Assign) and len(n.targets) == 1 and
+                    isinstance(n.targets[0], ast.Name) and n.targets[0].id == fn.id]
+            flat = []
+            for v in vals:
+                flat.extend([v.body, v.orelse] if isinstance(v, ast.IfExp) else [v])
+            if flat and all(isinstance(v, (ast.Attribute, ast.Name)) for v in flat):
+                out = set()
+                for v in flat:
+                    fake = ast.Call(func=v, args=call.args, keywords=call.keywords)
+                    out |= callee_set(ctx, f, fake, _depth + 1)
+                return out
         return set()
     if isinstance(fn, ast.Attribute):
         base = fn.value
@@ -242,16 +255,21 @@ def yield_kinds(ctx, fam, f, y, kinds):
 def rule_slots(ctx):
     """A2.slot: who-passes-what for the decodeFun slot (so that `decodeFun(...)` resolves to the item decoder)."""
     f = ctx.func('codec.ber.decoder.SingleItemDecoder.__call__')
-    n = 0
+    kinds = set()
     for c in walk_own(f.node):
-        if isinstance(c, ast.Call) and isinstance(c.func, ast.Attribute) and isinstance(c.func.value, ast.Name) \
-                and c.func.value.id == 'concreteDecoder' and c.func.attr in ('valueDecoder', 'indefLenValueDecoder'):
-            n += 1
+        if not isinstance(c, ast.Call):
+            continue
+        names = set(m.name for m in callee_set(ctx, f, c) if m.name in ('valueDecoder', 'indefLenValueDecoder'))
+        if not names or not (isinstance(c.func, ast.Name) or (isinstance(c.func, ast.Attribute) and norm(c.func.value) == 'concreteDecoder')):
+            continue
+        kinds |= names
+        for nm in sorted(names):
             ok = len(c.args) >= 7 and norm(c.args[5]) == 'self' and norm(c.args[0]) == 'substrate'
-            ctx.ob('A2.slot', f, 'concreteDecoder.%s receives decodeFun=self on the same substrate' % c.func.attr, ok,
+            ctx.ob('A2.slot', f, 'concreteDecoder.%s receives decodeFun=self on the same substrate' % nm, ok,
                    'positional arguments: %s' % [norm(a) for a in c.args], node=c)
-    if n < 2:
-        raise AnalysisError('expected the two concreteDecoder.*ValueDecoder call sites in %s' % f.short)
+    if kinds != {'valueDecoder', 'indefLenValueDecoder'}:
+        raise AnalysisError('expected call sites of concreteDecoder.valueDecoder and .indefLenValueDecoder in %s, found %s' % (
+            f.short, sorted(kinds)))
     # every other decodeFun argument in the decoder modules is the parameter itself (passed down) or self
     for g in ctx.prog.all_functions():
         if g.module.name not in DEC_MODULES:
@@ -725,21 +743,44 @@ def rule_oneshot(ctx):
         detail = 'true arm raises SubstrateUnderrunError family: %s; test dominates every return: %s; returned object is the tested item: %s' % (r_ok, dom, retvar)
     ctx.ob('A2.oneshot', f, 'underrun item is raised, never returned', ok, detail, node=tests[0].ast if tests else None)
     # remainder: read-to-end of the same stream object handed to the streaming decoder
-    src = [norm(s) for s in stmts_of(f.node)]
-    same = any(s.startswith('streamingDecoder = cls.STREAMING_DECODER(substrate,') or
-               'STREAMING_DECODER(substrate,' in s for s in src)
-    tail_read = any('readFromStream(substrate)' in s and s.startswith('tail =') for s in src)
-    eos = False
-    for n in walk_own(f.node):
-        if isinstance(n, ast.Try):
-            for h in n.handlers:
-                if h.type is not None and norm(h.type).endswith('EndOfStreamError') and \
-                        any(norm(b).startswith('tail = ') for b in h.body) and \
-                        any('readFromStream(substrate)' in norm(b) for b in n.body):
-                    eos = True
+    body = list(walk_own(f.node))
+    sd = [c for c in body if isinstance(c, ast.Call) and norm(c.func).endswith('STREAMING_DECODER') and c.args]
+    if len(sd) != 1 or not isinstance(sd[0].args[0], ast.Name):
+        raise AnalysisError('streaming decoder construction not found in %s' % f.short)
+    stream = sd[0].args[0].id
+    reads = [c for c in body if isinstance(c, ast.Call) and call_name(c) == 'readFromStream']
+    det = []
+    if not reads:
+        det.append('the remainder is not read from the stream at all')
+    for c in reads:
+        if not c.args or norm(c.args[0]) != stream:
+            det.append('`%s` reads another object than the stream `%s` the item was decoded from' % (norm(c), stream))
+        if len(c.args) > 1 and const_int(c.args[1]) != -1:
+            det.append('`%s` does not read to the end' % norm(c))
+    # the statement that pulls the remainder out of the producer is inside a try with an EndOfStreamError handler
+    # whose outcome is an empty remainder
+    pulls = [c for c in body if isinstance(c, ast.Call) and isinstance(c.func, ast.Name) and c.func.id == 'next']
+    guarded = False
+    for t in [n for n in body if isinstance(n, ast.Try)]:
+        inner = [c for st in t.body for c in ast.walk(st) if isinstance(c, ast.Call) and isinstance(c.func, ast.Name) and c.func.id == 'next']
+        if not inner:
+            continue
+        for h in t.handlers:
+            if h.type is not None and norm(h.type).endswith('EndOfStreamError'):
+                empties = [st for st in h.body if (isinstance(st, ast.Assign) and norm(st.value) in ('null', "b''")) or
+                           (isinstance(st, ast.Return) and norm(st.value) in ('null', "b''"))]
+                if empties and not raises_in(h.body):
+                    guarded = True
+                else:
+                    det.append('the EndOfStreamError handler does not produce an empty remainder')
+    if pulls and not guarded and not det:
+        det.append('an exhausted stream makes the remainder read raise EndOfStreamError (no handler producing an empty remainder)')
+    if reads and not pulls:
+        raise AnalysisError('how the remainder is taken out of readFromStream() in %s is not understood' % f.short)
     ctx.ob('A2.oneshot', f, 'remainder is read from the same stream; exhausted stream gives an empty remainder',
-           same and tail_read and eos, 'same stream: %s; tail = read-to-end: %s; EndOfStreamError -> empty tail: %s' % (same, tail_read, eos))
+           not det, '; '.join(det) or 'read to the end of `%s`, EndOfStreamError -> empty remainder' % stream)
     # asSeekableStream(substrate) precedes
+    src = [norm(s) for s in stmts_of(f.node)]
     first = [s for s in src if s.startswith('substrate = asSeekableStream(substrate)')]
     ctx.ob('A2.oneshot', f, 'input normalised by asSeekableStream before decoding', bool(first), 'found: %s' % bool(first),
            nontrivial=False)
